@@ -26,7 +26,7 @@ claim("C11", "other",
   "static analysis: error-propagation check restricted to the footer path + SSA dominator check (footer before first column read)", "DESIGN.md §5 C11")
 
 claim("C06", "other",
-  "Two clauses of C06 decided as structural necessary conditions, for all histories at once: (WH-empty) a Write with nothing pending puts nothing on the stream — every sink-touching call site reachable from Write is guarded by a rows-pending test; (WH-rows) the footer's file-level row count is computed from the row groups emitted, never from an Add-time counter; (WH-reset) Write re-initialises every writer/column field Add advances; (WH-child) the next page's writer inherits sink, page size, codec, metadata; (WH-groups) no row group without rows reaches the footer, and RowGroup.NumRows — by which Footer decides which groups were written — is never stored on the Add path (records pending at Close). The rest of C06 (one row group per batch, exact-multiple batches, ordering) needs model exploration and is NOT decided.",
+  "Two clauses of C06 decided as structural necessary conditions, for all histories at once: (WH-empty) a Write with nothing pending puts nothing on the stream — every sink-touching call site reachable from Write is guarded by a rows-pending test; (WH-rows) the footer's file-level row count is computed from the row groups emitted, never from an Add-time counter; (WH-reset) Write re-initialises every writer/column field Add advances; (WH-child) the next page's writer inherits sink, page size, codec, metadata; (WH-groups) no row group without rows reaches the footer, and RowGroup.NumRows — by which Footer decides which groups were written — is never stored on the Add path (records pending at Close), assigned from a counter advanced once per record and restarted per row group; (TD) Add counts/hands out/advances exactly once per stored record, Write emits parent page then child-chain pages per column. The rest of C06 (one row group per batch, exact-multiple batches, ordering) needs model exploration and is NOT decided.",
   "Reader is sequential from byte 4 (template fact). Guards recognised by SSA dominance; quantities discovered from what Add increments/appends.",
   "static analysis: must-be-guarded (dominator) check on sink-touching call sites + backward data-flow slice of the NumRows store over go/ssa", "DESIGN.md §4 WH, §5 C06")
 claim("C12", "other",
@@ -61,15 +61,15 @@ claim("C14", "translation_validation",
   "static analysis: translation validation over program pairs (text identity + go/types re-validation)", "DESIGN.md §4 TV-inert, §5 C14")
 
 claim("C01", "other",
-  "Necessary conditions of the round trip that are static choices shared by writer and reader, decided for all values: inverse codec operations and codec provenance (LA-codec); PLAIN layout per element type with bit-preserving conversions, string length prefix, bool bit order (LA-plain); presence/order/width agreement of level streams, widths = bits.Len(max level) (LA-order); Write re-initialises per-batch state and page writers inherit configuration (WH-reset, WH-child: 'any split into batches, any page size'); Add copies the record, shredders keep only primitives, assemblers never store a slice of reader buffers into a record (LA-alias) — decides the two 'unaffected by mutation' sentences. Per-shape inversion of shredding by assembly is claimed under C05. NOT decided: page-chain / row-group / cursor arithmetic, loop termination, multi-page bool unpacking, thrift, Rows()/Next() counts.",
+  "Necessary conditions of the round trip that are static choices shared by writer and reader, decided for all values: inverse codec operations and codec provenance (LA-codec); PLAIN layout per element type with bit-preserving conversions, string length prefix, bool bit order (LA-plain); presence/order/width agreement of level streams, widths = bits.Len(max level) (LA-order); Write re-initialises per-batch state and page writers inherit configuration (WH-reset, WH-child: 'any split into batches, any page size'); the generated drivers (TD: page order of Write over the child chain, Add bookkeeping, Next true exactly Rows() times and row groups loaded exactly when used up, constructor row count and Seek behind the magic, readRowGroup consuming exactly one row group and one chunk descriptor per column) and column templates (FT: value counts handed to the page writer, values decoded per chunk, bool payload size); level bookkeeping (max levels, trimming to num_values, non-null counts, per-page counts, chunk descriptors); Add copies the record, shredders keep only primitives, assemblers never store a slice of reader buffers into a record (LA-alias) — decides the two 'unaffected by mutation' sentences. Per-shape inversion of shredding by assembly is claimed under C05. NOT decided: page-chain / row-group / cursor arithmetic, loop termination, multi-page bool unpacking, thrift, Rows()/Next() counts.",
   "Thin on value-level behaviour by nature; the listed arithmetic needs execution against a model.",
   "static analysis: sibling-agreement and data-flow checks on go/ssa (codec dispatch, PLAIN encoders/decoders, level stream call sites, alias check of assemblers)", "DESIGN.md §4 LA, §5 C01")
 claim("C02", "other",
-  "Necessary structural conditions of C02: per page, header sizes and chunk totals are exactly the lengths of the bytes written (linear-form evaluation over slice lengths through DoWrite..updateColumnChunk: no swap of compressed/uncompressed, header bytes included); PAR1 first / footer / LE footer length = bytes written / PAR1 last (LA-frame); schema inputs handed to the runtime match the struct for every shape of the corpus (TV-fields); footer row count from emitted groups, no bytes outside accounted row groups, NumRows stored at write time only (WH); chunk offsets are accumulated (LA-offset); pointer cells of schema elements are neither written through while shared nor reassigned per iteration while shared (LA-cells). NOT decided: the rest of the schema tree built by schema() (same-named groups under different parents collide), offset sums, thrift, page record limits.",
+  "Necessary structural conditions of C02: per page, header sizes and chunk totals are exactly the lengths of the bytes written (linear-form evaluation over slice lengths through DoWrite..updateColumnChunk: no swap of compressed/uncompressed, header bytes included); PAR1 first / footer / LE footer length = bytes written / PAR1 last (LA-frame); schema inputs handed to the runtime match the struct for every shape of the corpus (TV-fields); footer row count from emitted groups, no bytes outside accounted row groups, NumRows stored at write time only from a per-group counter (WH); the column lists handed to New/StartRowGroup are Schema() of every column in order and Schema() reports the column's own name/path/repetition/types (TD, FT); chunk totals accumulate per page; chunk offsets are accumulated (LA-offset); pointer cells of schema elements are neither written through while shared nor reassigned per iteration while shared (LA-cells). NOT decided: the rest of the schema tree built by schema() (same-named groups under different parents collide), offset sums, thrift, page record limits.",
   "Value-level parts need execution against an independent parser.",
   "static analysis: interprocedural linear-form (slice-length) evaluation on go/ssa, framing dominance checks, translation validation of Fields() over the shape corpus", "DESIGN.md §4 LA-len/LA-frame, §5 C02")
 claim("C04", "other",
-  "Necessary structural preconditions only (thin): decode-time choices come from the file, never from writer configuration (codec provenance; no reader-reachable load of a writer-configuration field); inverse codec pairing; both run kinds and multi-byte run headers handled by the level decoder; page body extent from the header's compressed size; level stream order/width agreement, each width = bits.Len(maximum level); no use on the decode path of a thrift field a conformant writer may omit (statistics, crc, optional offsets; LA-optmeta); fragmentation independence (SR). NOT decided: correctness of level/run/PLAIN decoding, page concatenation and trimming for all legal encodings (needs an independent writer).",
+  "Necessary structural preconditions only (thin): decode-time choices come from the file, never from writer configuration (codec provenance; no reader-reachable load of a writer-configuration field); inverse codec pairing; both run kinds and multi-byte run headers handled by the level decoder; page body extent from the header's compressed size; level stream order/width agreement, each width = bits.Len(maximum level); no use on the decode path of a thrift field a conformant writer may omit (statistics, crc, optional offsets; LA-optmeta); fragmentation independence (SR, SR-count); reader drivers (TD: Next/readRowGroup/constructor), level trimming to num_values, non-null and per-page counts, chunk descriptors from the file's metadata. NOT decided: correctness of level/run/PLAIN decoding, page concatenation and trimming for all legal encodings (needs an independent writer).",
   "C04 is a statement about decoding values for all legal encodings; only its structural preconditions are claimed.",
   "static analysis: provenance/data-flow checks and sibling agreement on go/ssa; bit-provenance evaluation of run headers and varints", "DESIGN.md §5 C04")
 claim("C07", "other",
@@ -77,7 +77,7 @@ claim("C07", "other",
   "No numeric/relational abstract domain beyond constants and bit provenance is available.",
   "static analysis: bit-provenance abstract interpretation over go/ssa + sibling-agreement checks", "DESIGN.md §4 LA-runkind/LA-prefix/BP, §5 C07")
 claim("C15", "other",
-  "Necessary condition only (thin): the physical-type table used to regenerate a struct from a footer is the inverse of the schema type functions of the generated writer on every type C15 covers, and OPTIONAL <-> pointer on both sides; the footer schema's pointer-typed cells (num_children, repetition_type) are per element — not written through while shared, not reassigned per iteration while shared (LA-cells). The tree reconstruction from num_children and the footer it is fed are value-level and NOT decided.",
+  "Necessary condition only (thin): the physical-type table used to regenerate a struct from a footer is the inverse of the schema type functions of the generated writer on every type C15 covers, and OPTIONAL <-> pointer on both sides; the footer schema's pointer-typed cells (num_children, repetition_type) are per element — not written through while shared, not reassigned per iteration while shared (LA-cells). The depth-first reconstruction structs.getStruct is checked as linear forms over its two counters (child at i+j, recursion from i+j+1, j += consumed, returns i+j) and field() tags with the element's own name (LA-structs). The footer fed to it is otherwise value-level and NOT decided.",
   "Thin by nature.",
   "static analysis: table-agreement check (go/ast constant table vs. SSA analysis of generated Type functions)", "DESIGN.md §4 LA-types, §5 C15")
 claim("C16", "other",
